@@ -118,6 +118,23 @@ def gen_hashes():
     return out
 
 
+GEN_REFERENCE = os.path.join(COQ, "gen_reference.json")
+
+
+def changed_areas(misses=()):
+    """leaf areas whose regenerated file differs from the reference (coq/gen_reference.json: the hashes of the
+    Gen*.v files of the tree on which all proofs were last checked — written by tools/genref.py, committed),
+    plus the areas with a point that no longer translates"""
+    changed = set(m["area"] for m in misses)
+    try:
+        ref = json.load(open(GEN_REFERENCE))
+    except (OSError, ValueError):
+        return None          # no reference: nothing can be attributed
+    cur = gen_hashes()
+    changed |= set(a for a in set(cur) | set(ref) if ref.get(a) != cur.get(a))
+    return changed
+
+
 def driver_valid_for(areas):
     """the last good driver was extracted from leaf files; it is still the model of a property whose own
     leaf areas are byte-identical to the ones it was built from (another area may have stopped translating)"""
